@@ -592,6 +592,20 @@ func (env *SpecEnv) evalCall(x *SCall) Val {
 			env.fail("old() not available here")
 		}
 		return env.snapshot(env.withState(env.old).eval(x.Args[0]), env.old, 0)
+	case "at":
+		// at(S, e): value of e in the named ghost snapshot S
+		argn(2)
+		id, ok := x.Args[0].(*SIdent)
+		if !ok {
+			env.fail("at(S, e): S must be a snapshot name")
+		}
+		if env.f == nil || env.f.snapshots[id.Name] == nil {
+			// the path never passed the snapshot point: at(S,e) denotes e in the current state;
+			// clauses using it must be guarded by a condition that is false on such paths
+			return env.eval(x.Args[1])
+		}
+		ss := env.f.snapshots[id.Name]
+		return env.snapshot(env.withState(ss).eval(x.Args[1]), ss, 0)
 	case "entry":
 		// entry(N, e): value of e when loop N was first entered
 		argn(2)
